@@ -154,6 +154,16 @@ def main() -> int:
                             vals[vname] = vcls(doc)
                         else:
                             vals[vname] = vcls(sch)
+                    # a ROOT that is a reference (named type under all_refs=True, recursive class) carrying a constraint of its
+                    # own (the schema= argument): the older dialects ignore the siblings of $ref, the conversion must isolate it
+                    if c["type"]["k"] == "obj":
+                        from apischema import schema as mk_schema
+
+                        rkw = dict(additional_properties=addl, all_refs=True, schema=mk_schema(max_props=1), **akw)
+                        vals["root:2020-12"] = jsonschema.Draft202012Validator(deserialization_schema(tp, **rkw))
+                        for vname in ("2019-09", "draft-07"):
+                            ver, vcls = versions[vname]
+                            vals["root:" + vname] = vcls(deserialization_schema(tp, version=ver, **rkw))
                 except Exception as exc:
                     rep.violation(f"schema generation raised {type(exc).__name__}: {exc} for {bridge.type_expr(c['type'])}",
                                   {"type": bridge.type_expr(c["type"])})
@@ -179,6 +189,14 @@ def main() -> int:
                 elif ok != base_ok:
                     rep.violation(f"{vname} schema of {bridge.type_expr(c['type'])} {'accepts' if ok else 'rejects'} {json.dumps(data)[:120]}; "
                                   f"the draft 2020-12 schema {'accepts' if base_ok else 'rejects'} it", summary)
+            if "root:2020-12" in vals:
+                root_ok = vals["root:2020-12"].is_valid(data)
+                for vname in ("2019-09", "draft-07"):
+                    ok = vals["root:" + vname].is_valid(data)
+                    if ok != root_ok:
+                        rep.violation(f"{vname} schema of {bridge.type_expr(c['type'])} (all_refs=True, schema(max_props=1) at the root) "
+                                      f"{'accepts' if ok else 'rejects'} {json.dumps(data)[:120]}; the draft 2020-12 schema of the same call "
+                                      f"{'accepts' if root_ok else 'rejects'} it", {"type": bridge.type_expr(c["type"]), "version": vname, "data": c["data"]})
             if n % 4001 == 1:
                 rep.sample({"type": bridge.type_expr(c["type"]), "data": c["data"], "accepted_2020_12": base_ok, "model": c["vaccept"]})
         bridge.cleanup_gen_dir()
